@@ -144,6 +144,13 @@ def execute(plan):
 
     def check(step, op):
       advance(0.06)
+      for _ in range(40):
+        # quiescence: every watch event has been delivered (one handler greenlet serves all watchers, also those of
+        # server sets that were stopped meanwhile, and each of its reads takes the plan's latency)
+        if zk.evq.empty() and not zk.busy:
+          break
+        advance(0.03)
+      advance(0.02)
       where = '(step %d: %r)' % (step, op)
       held = set()
       for kind, name in log:
